@@ -86,6 +86,31 @@ fn ep_general(s: &mut S, r: &mut Rng, maxc: usize, maxr: usize, wt: &Weights, na
     if r.chance(1, 2) {
         fill(s, r, slot);
     }
+    // prelude: put the terminal into one of the mode / margin combinations the properties quantify over
+    if r.chance(1, 2) {
+        let t = gen::valid_margins(r, rr);
+        s.feed_str(slot, &t, true);
+    }
+    if r.chance(1, 3) {
+        s.feed_str(slot, "\x1b[?6h", true);
+    }
+    if r.chance(1, 5) {
+        s.feed_str(slot, "\x1b[?7l", true);
+    }
+    if r.chance(1, 6) {
+        s.feed_str(slot, "\x1b[4h", true);
+    }
+    if r.chance(1, 8) {
+        s.feed_str(slot, "\x1b[20h", true);
+    }
+    if r.chance(1, 6) {
+        let t = gen::sgr_small(r);
+        s.feed_str(slot, &t, true);
+    }
+    if r.chance(1, 8) {
+        let t = gen::enter_alt(r);
+        s.feed_str(slot, &t, true);
+    }
     let n = r.range(4, 28);
     tokens(s, r, slot, wt, n, maxc, maxr, resize);
 }
@@ -871,7 +896,7 @@ pub fn run(args: &Args) -> i32 {
         }
     }
     s.out.flush().unwrap();
-    println!("{{\"driver\":\"{}\",\"seed\":{},\"episodes\":{},\"events\":{},\"panics\":{},\"chars\":{}}}", drv, seed, s.episodes, s.events, s.panics, s.chars_fed);
+    println!("{{\"driver\":\"{}\",\"seed\":{},\"episodes\":{},\"events\":{},\"panics\":{},\"chars\":{},\"distinct_nontrivial\":{}}}", drv, seed, s.episodes, s.events, s.panics, s.chars_fed, s.distinct.len());
     0
 }
 
